@@ -300,6 +300,13 @@ proof fn lemma_be_final_step(v: Seq<f64>, n: int, i: int, ents: Seq<BedEntry>, n
 //   returned AT ONCE" is expressible: the items behind it are still in the stream);
 //   `mut v: ArrayViewMut<'_, f64, numpy::Ix1>` -> `v: &mut VArr`;  `_BBIReadError` -> `ReadErr`;
 //   `for interval in iter {` -> `loop { let interval = match iter.next() { None => break, Some(x) => x };`
+//   `for interval in iter.flatten() {` (also `.filter_map(Result::ok)`, `.filter_map(|r| r.ok())`; 0 hits on /repo) -> the
+//   same `loop {` header followed by `let interval = match interval { Ok(x) => x, Err(_) => { continue; } };`: the REAL
+//   meaning of `Iterator::flatten` over `Result` items (`Result` iterates over its Ok value: an Err item yields
+//   nothing and the adaptor goes on with the next item).  The optional splice on that line states what the property
+//   needs there: the item just taken is not an Err that is about to be skipped
+//   (`../error_item_is_returned_at_once/not_skipped_by_flatten`).  Both header subs are min=0: the anchor that
+//   must survive is `let interval = match iter.next()` (the //@at below).
 //   `for val in v.iter_mut() {` -> index loop `let n__ = v.len(); for i__2 in 0..n__ { let val = v.index_mut(i__2);`
 //   `X as f64` (f32 -> f64 widening) -> `f64_of_f32(X)`;  `f64::NAN` -> `fconst_f64_nan()` (R12c)
 //@extract fn pybigtools/src/lib.rs to_array
@@ -310,7 +317,8 @@ proof fn lemma_be_final_step(v: Seq<f64>, n: int, i: int, ents: Seq<BedEntry>, n
 //@sub /\biter: I\b/ => iter: &mut VIter<Value> min=1
 //@sub /mut v: ArrayViewMut<'_, f64, numpy::Ix1>/ => v: &mut VArr min=1
 //@sub /\b_BBIReadError\b/ => ReadErr min=0
-//@sub /for interval in iter \{/ => loop {\n        let interval = match iter.next() { None => { break; } Some(r__) => r__ }; min=1
+//@sub /for interval in iter\s*\.(?:flatten\(\)|filter_map\(Result::ok\)|filter_map\(\|(\w+)\| \1\.ok\(\)\)) \{/ => loop {\n        let interval = match iter.next() { None => { break; } Some(r__) => r__ };\n        let interval = match interval { Ok(x__) => x__, Err(_) => { continue; } }; min=0
+//@sub /for interval in iter \{/ => loop {\n        let interval = match iter.next() { None => { break; } Some(r__) => r__ }; min=0
 //@sub /for val in v\.iter_mut\(\) \{/ => let n__ = v.len();\n    for i__2 in 0..n__\n        invariant bw_final_inv(v@, n__ as int, i__2 as int, vals, nk, start as int, end as int, missing), nk == items.len(), vals == oks(items, nk), bw_no_nan(vals),\n    {\n        proof { lemma_bw_final_step(v@, n__ as int, i__2 as int, vals, nk, start as int, end as int, missing); }\n        let val = v.index_mut(i__2); min=0
 //@sub /\b(\w+(?:\.\w+)*) as f64\b/ => f64_of_f32(\1) min=0
 //@ret r
@@ -385,6 +393,11 @@ proof fn lemma_be_final_step(v: Seq<f64>, n: int, i: int, ents: Seq<BedEntry>, n
                 assert(start <= vals[j].start && vals[j].start <= vals[j].end && vals[j].end <= end);
             }
         }
+//@at /Err\(_\) => \{ continue; \}/ before optional
+        proof {
+            // `iter.flatten()`: an Err item would be dropped here and the loop would go on -- it has to be returned
+            assert(interval is Ok); [[L: bw/error_item_is_returned_at_once/not_skipped_by_flatten]]
+        }
 //@at /^\s*for i in / before
         proof {
             assert(interval_start == interval.start - start && interval_end == interval.end - start); [[L: bw/index_arithmetic_does_not_wrap]]
@@ -444,7 +457,8 @@ proof fn lemma_be_final_step(v: Seq<f64>, n: int, i: int, ents: Seq<BedEntry>, n
 //@sub /\biter: I\b/ => iter: &mut VIter<BedEntry> min=1
 //@sub /mut v: ArrayViewMut<'_, f64, numpy::Ix1>/ => v: &mut VArr min=1
 //@sub /\b_BBIReadError\b/ => ReadErr min=0
-//@sub /for interval in iter \{/ => loop {\n        let interval = match iter.next() { None => { break; } Some(r__) => r__ }; min=1
+//@sub /for interval in iter\s*\.(?:flatten\(\)|filter_map\(Result::ok\)|filter_map\(\|(\w+)\| \1\.ok\(\)\)) \{/ => loop {\n        let interval = match iter.next() { None => { break; } Some(r__) => r__ };\n        let interval = match interval { Ok(x__) => x__, Err(_) => { continue; } }; min=0
+//@sub /for interval in iter \{/ => loop {\n        let interval = match iter.next() { None => { break; } Some(r__) => r__ }; min=0
 //@sub /for val in v\.iter_mut\(\) \{/ => let n__ = v.len();\n    for i__2 in 0..n__\n        invariant be_final_inv(v@, n__ as int, i__2 as int, ents, nk, start as int, end as int, missing), nk == items.len(), ents == oks(items, nk),\n    {\n        proof { lemma_be_final_step(v@, n__ as int, i__2 as int, ents, nk, start as int, end as int, missing); }\n        let val = v.index_mut(i__2); min=0
 //@sub /\b(\w+(?:\.\w+)*) as f64\b/ => f64_of_f32(\1) min=0
 //@ret r
@@ -510,6 +524,11 @@ proof fn lemma_be_final_step(v: Seq<f64>, n: int, i: int, ents: Seq<BedEntry>, n
                 assert(interval->Ok_0 == ents[j]);
                 assert(ents[j].start <= ents[j].end && ents[j].end <= i32::MAX && start <= ents[j].end && ents[j].start <= end);
             }
+        }
+//@at /Err\(_\) => \{ continue; \}/ before optional
+        proof {
+            // `iter.flatten()`: an Err item would be dropped here and the loop would go on -- it has to be returned
+            assert(interval is Ok); [[L: be/error_item_is_returned_at_once/not_skipped_by_flatten]]
         }
 //@at /^\s*for i in / before
         proof {
